@@ -32,9 +32,9 @@ PROP = dict(
                 "TestVerifC12ReproDustAfterBroadcastRemote", "TestVerifC12ReproDustBitMapOrder"], 1, shards=1, v=True),
         ],
         thorough=[
-            job("contractcourt", "^TestVerifC12Decision$", ["TestVerifC12Decision"], 30000, shards=8,
+            job("contractcourt", "^TestVerifC12Decision$", ["TestVerifC12Decision"], 80000, shards=12,
                 timeout=900),
-            job("contractcourt", "^TestVerifC12Resolution$", ["TestVerifC12Resolution"], 30000, shards=8,
+            job("contractcourt", "^TestVerifC12Resolution$", ["TestVerifC12Resolution"], 80000, shards=12,
                 timeout=900),
             job("contractcourt", "^TestVerifC12Repro", ["TestVerifC12ReproDustAfterBroadcastLocal",
                 "TestVerifC12ReproDustAfterBroadcastRemote", "TestVerifC12ReproDustBitMapOrder"], 1, shards=1, v=True),
